@@ -195,6 +195,10 @@ def run_plain(nwatches, regs, nevents):
 def main():
     if REPLAY is not None:
         c = REPLAY
+        if c["kind"] == "queue":
+            import c16_battery
+            pr = c16_battery.scen_late_bookkeeping(c["variant"])
+            replay_result(bool(pr), pr[:3])
         if c["kind"] == "plain":
             pr = run_plain(c["nw"], [tuple(x) for x in c["regs"]], c["nev"])
         else:
@@ -225,6 +229,13 @@ def main():
         pr = run_program(nw, regs, scripts, 4)
         if pr:
             bat.fail("C04.reentrant-dispatch", pr[0], {"kind": "prog", "nw": nw, "regs": [list(r) for r in regs], "scripts": {str(k): [list(a) for a in v] for k, v in scripts.items()}, "nev": 4, "problems": pr[:3]}, "BaseObserver.dispatch_events")
+    # ordering / no-loss of the observer's event queue is C16's contract: its interleavings are run here as well
+    import c16_battery
+    for v in ("consumer", "producer"):
+        bat.case(("event-queue", v))
+        pr = c16_battery.scen_late_bookkeeping(v)
+        if pr:
+            bat.fail("C04.event-queue:" + v, pr[0], {"kind": "queue", "variant": v}, "SkipRepeatsQueue.put")
     bat.finish()
 
 
